@@ -114,6 +114,16 @@ var properties = map[string]*propSpec{
 			{Check: "TestC04_Snapshot", Class: "nontrivial", Min: 0.2},
 		},
 	},
+	"C05": {
+		Title: "A parsed function is pure: each call depends only on its argument",
+		Checks: []checkSpec{
+			{Test: "TestC05_History", Quick: 10000, Thorough: 150000, Rapid: true},
+		},
+		Assumptions: assume(specAssumption, "histories are single-goroutine (concurrency is C06) and bounded at 8 / 16 operations"),
+		Floors: []floor{
+			{Check: "TestC05_History", Class: "nontrivial", Min: 0.2},
+		},
+	},
 	"C08": {
 		Title: "Steps compose: P followed by Q equals Q applied to each result of P",
 		Checks: []checkSpec{
